@@ -201,3 +201,104 @@ func VerifLemma_C19C_NetrcProvider() {
 	}
 	verifAssert(!p.IsFromEnvVar(), "netrc provider is not from the env var")
 }
+
+// vHostProvider is a stub TokenProvider configured per host: tokenA for hostA, tokenB for hostB, nothing otherwise.
+type vHostProvider struct {
+	hostA, tokenA string
+	hostB, tokenB string
+	fromEnv       bool
+	asked         []string
+}
+
+func (p *vHostProvider) RemoteToken(address string) string {
+	p.asked = append(p.asked, address)
+	if address == p.hostA {
+		return p.tokenA
+	}
+	if address == p.hostB {
+		return p.tokenB
+	}
+	return ""
+}
+
+func (p *vHostProvider) IsFromEnvVar() bool { return p.fromEnv }
+
+// VerifLemma_C19B_TwoHosts: ONE provider value (as connectclient.Config holds it) hands out interceptors for two
+// different addresses; requests are driven through them in every order (1,2 / 2,1 / 1,2,1, and both interceptors
+// created up front or lazily). Every request must carry exactly the token configured for its own address - nothing
+// resolved for one host may be remembered for another - and the providers are consulted afresh for each request.
+func VerifLemma_C19B_TwoHosts() {
+	n := verifParam("N")
+	a1 := verifNondetStringN(verifNondetChoice(n) + 1)
+	a2 := verifNondetStringN(verifNondetChoice(n) + 1)
+	verifAssume(a1 != a2)
+	t1 := verifNondetString(verifParam("TOKEN"))
+	t2 := verifNondetString(verifParam("TOKEN"))
+	// first source: host-keyed; second source: a real static provider for a single host-less token (or none)
+	p1 := &vHostProvider{hostA: a1, tokenA: t1, hostB: a2, tokenB: t2, fromEnv: verifNondetBool()}
+	fallback := verifNondetString(1)
+	verifAssume(refCountByte(fallback, '@')+refCountByte(fallback, ',') == 0)
+	p2, err := newTokenProviderFromString(fallback, false)
+	verifAssume(err == nil)
+	provider := NewAuthorizationInterceptorProvider(p1, p2)
+
+	want := func(addr string) string {
+		tok := ""
+		if addr == a1 {
+			tok = t1
+		} else {
+			tok = t2
+		}
+		if tok == "" {
+			tok = fallback
+		}
+		return tok
+	}
+	var seen []string
+	seenN := 0
+	next := connect.UnaryFunc(func(ctx context.Context, r connect.AnyRequest) (connect.AnyResponse, error) {
+		seen = r.Header().Values(AuthenticationHeader)
+		seenN++
+		return nil, vErrNext
+	})
+	eager := verifNondetBool()
+	var i1, i2 connect.UnaryInterceptorFunc
+	if eager {
+		i1, i2 = provider(a1), provider(a2)
+	}
+	send := func(first bool) {
+		addr, ic := a1, i1
+		if !first {
+			addr, ic = a2, i2
+		}
+		if !eager {
+			ic = provider(addr)
+		}
+		seen = nil
+		before := len(p1.asked)
+		_, err := ic(next)(context.Background(), connect.NewRequest(&vEmptyMsg{}))
+		w := want(addr)
+		if w == "" {
+			verifAssert(len(seen) == 0, "two hosts: no token for this host, nothing sent")
+		} else {
+			verifAssert(len(seen) == 1 && seen[0] == AuthenticationTokenPrefix+w, "two hosts: each request carries the token of its own address")
+		}
+		verifAssert(len(p1.asked) == before+1 && p1.asked[before] == addr, "two hosts: the provider is consulted for every request with that request's address")
+		authErr, ok := AsAuthError(err)
+		verifAssert(ok && authErr.Remote() == addr && authErr.HasToken() == (w != ""), "two hosts: AuthError describes this request")
+	}
+	switch verifNondetChoice(3) {
+	case 0:
+		send(true)
+		send(false)
+	case 1:
+		send(false)
+		send(true)
+	case 2:
+		send(true)
+		send(false)
+		send(true)
+	}
+	verifCover("two hosts served")
+	verifAssert(seenN >= 2, "all requests were forwarded")
+}
